@@ -122,8 +122,10 @@ HANGS = [0]   # scenarios on which the driver did not return (this process): aft
 
 def run_harness(exe, scenario_text, timeout=120):
     """Run the driver on a scenario; returns (returncode, stdout, stderr)."""
-    if HANGS[0] >= 2:
-        timeout = min(timeout, 25)
+    if HANGS[0] >= 6:
+        return -999, "", "TIMEOUT (not run: the driver already failed to return on six scenarios)"
+    if HANGS[0] >= 1:
+        timeout = min(timeout, 12)
     env = dict(os.environ)
     env["ASAN_OPTIONS"] = "detect_leaks=1:abort_on_error=0:exitcode=88:allocator_may_return_null=1"
     env["UBSAN_OPTIONS"] = "print_stacktrace=1:halt_on_error=1:exitcode=89"
